@@ -411,6 +411,7 @@ func elf(r *core.Rng, n int, machine uint16, bogus bool) []byte {
 	binary.LittleEndian.PutUint16(b[18:], machine)
 	binary.LittleEndian.PutUint32(b[20:], 1)
 	nsec := 4
+	cut := r.Intn(3) == 0
 	shoff := uint64(n - nsec*64 - 8)
 	if n < 64+nsec*64+64 {
 		shoff = 64
@@ -439,6 +440,10 @@ func elf(r *core.Rng, n int, machine uint16, bogus bool) []byte {
 		binary.LittleEndian.PutUint64(sh[8:], 6) // ALLOC|EXEC
 		binary.LittleEndian.PutUint64(sh[24:], uint64(64+s*(n/8)))
 		binary.LittleEndian.PutUint64(sh[32:], uint64(n/8))
+		if s == nsec-1 && cut {
+			// the last code section runs up to / beyond the end of the block (an executable cut into blocks)
+			binary.LittleEndian.PutUint64(sh[32:], uint64(n))
+		}
 	}
 	return b
 }
